@@ -32,11 +32,17 @@ try:
         t = time.time(); rc, out = run('go test -vet=off -count=1 ./...', cwd=wt); res['suite_passes_with_change'] = rc == 0; res['suite_s'] = round(time.time() - t)
         if rc != 0: res['suite_output_tail'] = out[-1500:]
     demo = [f for f in os.listdir(dst) if f.endswith('_test.go') or f == 'main.go']
-    to = os.path.join(wt, meta.get('demo_copy_to', './'))
+    copy_to = (meta.get('demo_copy_to') or './').split()[0]
+    to = os.path.join(wt, copy_to)
     os.makedirs(to, exist_ok=True)
     for f in demo: shutil.copy(f'{dst}/{f}', to)
-    cmd = meta['demo_cmd']
-    rc, out = run(cmd, cwd=wt); res['demo_fails_with_change'] = rc != 0; res['demo_output_with_change_tail'] = out[-600:]
+    cmd = meta['demo_cmd'].split('#')[0].strip()
+    if cmd.startswith('cp ') and '&&' in cmd:
+        cmd = cmd.split('&&', 1)[1].strip()   # the script has already copied the demonstration
+    res['demo_cmd_run'] = cmd
+    rc, out = run(cmd, cwd=wt)
+    res['demo_fails_with_change'] = rc != 0 and any(k in out for k in ('FAIL', 'DATA RACE', 'panic:'))
+    res['demo_output_with_change_tail'] = out[-600:]
     run(f'git apply -R {dst}/patch.diff', cwd=wt)
     rc, out = run(cmd, cwd=wt); res['demo_passes_without_change'] = rc == 0
     if rc != 0: res['demo_output_clean_tail'] = out[-600:]
